@@ -120,13 +120,14 @@ type KeyInfo struct {
 
 // Ctx carries what Exec needs: the collection to call, the driver's knowledge, tables.
 type Ctx struct {
-	tr      *Trace
-	crc     *crcTable
-	exp     *expTable
-	known   func(coll, key string) *KeyInfo
-	maxCas  func() uint64
-	snap    map[string]uint64 // CAS of every key at the end of the sequential setup
-	onShown func(cas uint64)  // called inside Update-style callbacks with the CAS of the version shown
+	tr       *Trace
+	crc      *crcTable
+	exp      *expTable
+	known    func(coll, key string) *KeyInfo
+	maxCas   func() uint64
+	snap     map[string]uint64       // CAS of every key at the end of the sequential setup
+	onShown  func(cas uint64)        // called inside Update-style callbacks with the CAS of the version shown
+	swapDDoc func(coll string) error // replaces the design document of a collection by the other variant
 }
 
 func (x *Ctx) resolveCas(op *GenOp) uint64 {
@@ -428,6 +429,10 @@ func (x *Ctx) Exec(c *rosmar.Collection, bucket *rosmar.Bucket, op *GenOp) (a Ar
 		var v []byte
 		v, casOut, err = c.GetRaw(op.Key)
 		r.Body = AbstractBody(v)
+	case "SwapDDoc":
+		if x.swapDDoc != nil {
+			err = x.swapDDoc(op.Coll)
+		}
 	case "Nop":
 	default:
 		panic("unknown op " + op.Op)
